@@ -155,6 +155,10 @@ class Tmatrix(ScatteringTheory):
         s11, s12, s21, s22, ierr = ampld(*args)
         if ierr != 0:
             raise TmatrixFailure(_AMPLD_ERRORS.get(ierr, 'error %d' % ierr))
+        if not all(np.isfinite(s).all() for s in (s11, s12, s21, s22)):
+            # e.g. a size parameter of 1e-30: the solver underflows and
+            # returns NaN amplitudes without setting its error flag
+            raise TmatrixFailure('the solver returned non-finite amplitudes')
         for s in [s11, s12, s21, s22]:
             s *= (-2j*np.pi/med_wavelen)
         # ampld's amplitude matrix refers the incident field to the fixed
